@@ -1394,7 +1394,7 @@ package gkvlite
 //@   ensures stopped: !result ==> vis.stop
 
 //@ func (*Collection).VisitItemsAscendEx
-//@   props C06 C19 C07 C15 C05 C04 C09
+//@   props C06 C19 C07 C15 C05 C04 C09 C18
 //@   from: C06 statement, over the ghost visit log (see visitNodes)
 //@   requires [C05,C18] nolocks: locks == emptyLocks()
 //@   requires t != nil && t.store != nil && t.rootLock != nil && t.compare != nil && visitor != nil
@@ -1409,11 +1409,11 @@ package gkvlite
 //@   ensures [C06] strictly-ordered: forall idx, jdx {vis.key[idx], vis.key[jdx]} :: old(vis.n) <= idx && idx < jdx && jdx < vis.n ==> vis.key[idx] < vis.key[jdx]
 //@   ensures [C06] complete-unless-stopped: result == nil && !vis.stop ==> forall k {mem(k, old(tvs)[old(t.root.root)])} :: mem(k, old(tvs)[old(t.root.root)]) && k >= ord(target) ==> exists idx {vis.key[idx]} :: old(vis.n) <= idx && idx < vis.n && vis.key[idx] == k
 //@   ensures [C19] key-only-reads-no-value: !withValue ==> io.valbytes == old(io.valbytes)
-//@   ensures [C04,C09] visit-changes-no-version: t.root == old(t.root) && rootNodeLoc.refs == old(rootNodeLoc.refs) && rootNodeLoc.root == old(rootNodeLoc.root) && rootNodeLoc.next == old(rootNodeLoc.next) && rootNodeLoc.chainedCollection == old(rootNodeLoc.chainedCollection) && rootNodeLoc.chainedRootNodeLoc == old(rootNodeLoc.chainedRootNodeLoc) && tvs == old(tvs) && ias == old(ias) && (forall m {node.next[m]} :: !fresh(m) ==> node.next[m] == old(node.next[m])) && (forall x {nodeLoc.loc[x]} {nodeLoc.next[x]} :: !fresh(x) ==> nodeLoc.loc[x] == old(nodeLoc.loc[x]) && nodeLoc.next[x] == old(nodeLoc.next[x])) && freeNodes == old(freeNodes) && freeNodeLocs == old(freeNodeLocs) && freeRootNodeLocs == old(freeRootNodeLocs)
+//@   ensures [C04,C09,C18] visit-changes-no-version: t.root == old(t.root) && rootNodeLoc.refs == old(rootNodeLoc.refs) && rootNodeLoc.root == old(rootNodeLoc.root) && rootNodeLoc.next == old(rootNodeLoc.next) && rootNodeLoc.chainedCollection == old(rootNodeLoc.chainedCollection) && rootNodeLoc.chainedRootNodeLoc == old(rootNodeLoc.chainedRootNodeLoc) && tvs == old(tvs) && ias == old(ias) && (forall m {node.next[m]} :: !fresh(m) ==> node.next[m] == old(node.next[m])) && (forall x {nodeLoc.loc[x]} {nodeLoc.next[x]} :: !fresh(x) ==> nodeLoc.loc[x] == old(nodeLoc.loc[x]) && nodeLoc.next[x] == old(nodeLoc.next[x])) && freeNodes == old(freeNodes) && freeNodeLocs == old(freeNodeLocs) && freeRootNodeLocs == old(freeRootNodeLocs)
 //@   ensures [C15] in-visit-eviction-releases-what-it-drops: orphans == old(orphans)
 
 //@ func (*Collection).VisitItemsDescendEx
-//@   props C06 C19 C07 C15 C05 C04 C09
+//@   props C06 C19 C07 C15 C05 C04 C09 C18
 //@   from: C06 statement, over the ghost visit log (see visitNodes)
 //@   requires [C05,C18] nolocks: locks == emptyLocks()
 //@   requires t != nil && t.store != nil && t.rootLock != nil && t.compare != nil && visitor != nil
@@ -1428,11 +1428,11 @@ package gkvlite
 //@   ensures [C06] strictly-ordered: forall idx, jdx {vis.key[idx], vis.key[jdx]} :: old(vis.n) <= idx && idx < jdx && jdx < vis.n ==> vis.key[idx] > vis.key[jdx]
 //@   ensures [C06] complete-unless-stopped: result == nil && !vis.stop ==> forall k {mem(k, old(tvs)[old(t.root.root)])} :: mem(k, old(tvs)[old(t.root.root)]) && k < ord(target) ==> exists idx {vis.key[idx]} :: old(vis.n) <= idx && idx < vis.n && vis.key[idx] == k
 //@   ensures [C19] key-only-reads-no-value: !withValue ==> io.valbytes == old(io.valbytes)
-//@   ensures [C04,C09] visit-changes-no-version: t.root == old(t.root) && rootNodeLoc.refs == old(rootNodeLoc.refs) && rootNodeLoc.root == old(rootNodeLoc.root) && rootNodeLoc.next == old(rootNodeLoc.next) && rootNodeLoc.chainedCollection == old(rootNodeLoc.chainedCollection) && rootNodeLoc.chainedRootNodeLoc == old(rootNodeLoc.chainedRootNodeLoc) && tvs == old(tvs) && ias == old(ias) && (forall m {node.next[m]} :: !fresh(m) ==> node.next[m] == old(node.next[m])) && (forall x {nodeLoc.loc[x]} {nodeLoc.next[x]} :: !fresh(x) ==> nodeLoc.loc[x] == old(nodeLoc.loc[x]) && nodeLoc.next[x] == old(nodeLoc.next[x])) && freeNodes == old(freeNodes) && freeNodeLocs == old(freeNodeLocs) && freeRootNodeLocs == old(freeRootNodeLocs)
+//@   ensures [C04,C09,C18] visit-changes-no-version: t.root == old(t.root) && rootNodeLoc.refs == old(rootNodeLoc.refs) && rootNodeLoc.root == old(rootNodeLoc.root) && rootNodeLoc.next == old(rootNodeLoc.next) && rootNodeLoc.chainedCollection == old(rootNodeLoc.chainedCollection) && rootNodeLoc.chainedRootNodeLoc == old(rootNodeLoc.chainedRootNodeLoc) && tvs == old(tvs) && ias == old(ias) && (forall m {node.next[m]} :: !fresh(m) ==> node.next[m] == old(node.next[m])) && (forall x {nodeLoc.loc[x]} {nodeLoc.next[x]} :: !fresh(x) ==> nodeLoc.loc[x] == old(nodeLoc.loc[x]) && nodeLoc.next[x] == old(nodeLoc.next[x])) && freeNodes == old(freeNodes) && freeNodeLocs == old(freeNodeLocs) && freeRootNodeLocs == old(freeRootNodeLocs)
 //@   ensures [C15] in-visit-eviction-releases-what-it-drops: orphans == old(orphans)
 
 //@ func (*Collection).VisitItemsAscend
-//@   props C06 C19 C07 C15 C05 C04 C09
+//@   props C06 C19 C07 C15 C05 C04 C09 C18
 //@   from: C06 statement, over the ghost visit log (see visitNodes)
 //@   requires [C05,C18] nolocks: locks == emptyLocks()
 //@   requires t != nil && t.store != nil && t.rootLock != nil && t.compare != nil && v != nil
@@ -1444,11 +1444,11 @@ package gkvlite
 //@   ensures [C06] strictly-ordered: forall idx, jdx {vis.key[idx], vis.key[jdx]} :: old(vis.n) <= idx && idx < jdx && jdx < vis.n ==> vis.key[idx] < vis.key[jdx]
 //@   ensures [C06] complete-unless-stopped: result == nil && !vis.stop ==> forall k {mem(k, old(tvs)[old(t.root.root)])} :: mem(k, old(tvs)[old(t.root.root)]) && k >= ord(target) ==> exists idx {vis.key[idx]} :: old(vis.n) <= idx && idx < vis.n && vis.key[idx] == k
 //@   ensures [C19] key-only-reads-no-value: !withValue ==> io.valbytes == old(io.valbytes)
-//@   ensures [C04,C09] visit-changes-no-version: t.root == old(t.root) && rootNodeLoc.refs == old(rootNodeLoc.refs) && rootNodeLoc.root == old(rootNodeLoc.root) && rootNodeLoc.next == old(rootNodeLoc.next) && rootNodeLoc.chainedCollection == old(rootNodeLoc.chainedCollection) && rootNodeLoc.chainedRootNodeLoc == old(rootNodeLoc.chainedRootNodeLoc) && tvs == old(tvs) && ias == old(ias) && (forall m {node.next[m]} :: !fresh(m) ==> node.next[m] == old(node.next[m])) && (forall x {nodeLoc.loc[x]} {nodeLoc.next[x]} :: !fresh(x) ==> nodeLoc.loc[x] == old(nodeLoc.loc[x]) && nodeLoc.next[x] == old(nodeLoc.next[x])) && freeNodes == old(freeNodes) && freeNodeLocs == old(freeNodeLocs) && freeRootNodeLocs == old(freeRootNodeLocs)
+//@   ensures [C04,C09,C18] visit-changes-no-version: t.root == old(t.root) && rootNodeLoc.refs == old(rootNodeLoc.refs) && rootNodeLoc.root == old(rootNodeLoc.root) && rootNodeLoc.next == old(rootNodeLoc.next) && rootNodeLoc.chainedCollection == old(rootNodeLoc.chainedCollection) && rootNodeLoc.chainedRootNodeLoc == old(rootNodeLoc.chainedRootNodeLoc) && tvs == old(tvs) && ias == old(ias) && (forall m {node.next[m]} :: !fresh(m) ==> node.next[m] == old(node.next[m])) && (forall x {nodeLoc.loc[x]} {nodeLoc.next[x]} :: !fresh(x) ==> nodeLoc.loc[x] == old(nodeLoc.loc[x]) && nodeLoc.next[x] == old(nodeLoc.next[x])) && freeNodes == old(freeNodes) && freeNodeLocs == old(freeNodeLocs) && freeRootNodeLocs == old(freeRootNodeLocs)
 //@   ensures [C15] in-visit-eviction-releases-what-it-drops: orphans == old(orphans)
 
 //@ func (*Collection).VisitItemsDescend
-//@   props C06 C19 C07 C15 C05 C04 C09
+//@   props C06 C19 C07 C15 C05 C04 C09 C18
 //@   from: C06 statement, over the ghost visit log (see visitNodes)
 //@   requires [C05,C18] nolocks: locks == emptyLocks()
 //@   requires t != nil && t.store != nil && t.rootLock != nil && t.compare != nil && v != nil
@@ -1460,7 +1460,7 @@ package gkvlite
 //@   ensures [C06] strictly-ordered: forall idx, jdx {vis.key[idx], vis.key[jdx]} :: old(vis.n) <= idx && idx < jdx && jdx < vis.n ==> vis.key[idx] > vis.key[jdx]
 //@   ensures [C06] complete-unless-stopped: result == nil && !vis.stop ==> forall k {mem(k, old(tvs)[old(t.root.root)])} :: mem(k, old(tvs)[old(t.root.root)]) && k < ord(target) ==> exists idx {vis.key[idx]} :: old(vis.n) <= idx && idx < vis.n && vis.key[idx] == k
 //@   ensures [C19] key-only-reads-no-value: !withValue ==> io.valbytes == old(io.valbytes)
-//@   ensures [C04,C09] visit-changes-no-version: t.root == old(t.root) && rootNodeLoc.refs == old(rootNodeLoc.refs) && rootNodeLoc.root == old(rootNodeLoc.root) && rootNodeLoc.next == old(rootNodeLoc.next) && rootNodeLoc.chainedCollection == old(rootNodeLoc.chainedCollection) && rootNodeLoc.chainedRootNodeLoc == old(rootNodeLoc.chainedRootNodeLoc) && tvs == old(tvs) && ias == old(ias) && (forall m {node.next[m]} :: !fresh(m) ==> node.next[m] == old(node.next[m])) && (forall x {nodeLoc.loc[x]} {nodeLoc.next[x]} :: !fresh(x) ==> nodeLoc.loc[x] == old(nodeLoc.loc[x]) && nodeLoc.next[x] == old(nodeLoc.next[x])) && freeNodes == old(freeNodes) && freeNodeLocs == old(freeNodeLocs) && freeRootNodeLocs == old(freeRootNodeLocs)
+//@   ensures [C04,C09,C18] visit-changes-no-version: t.root == old(t.root) && rootNodeLoc.refs == old(rootNodeLoc.refs) && rootNodeLoc.root == old(rootNodeLoc.root) && rootNodeLoc.next == old(rootNodeLoc.next) && rootNodeLoc.chainedCollection == old(rootNodeLoc.chainedCollection) && rootNodeLoc.chainedRootNodeLoc == old(rootNodeLoc.chainedRootNodeLoc) && tvs == old(tvs) && ias == old(ias) && (forall m {node.next[m]} :: !fresh(m) ==> node.next[m] == old(node.next[m])) && (forall x {nodeLoc.loc[x]} {nodeLoc.next[x]} :: !fresh(x) ==> nodeLoc.loc[x] == old(nodeLoc.loc[x]) && nodeLoc.next[x] == old(nodeLoc.next[x])) && freeNodes == old(freeNodes) && freeNodeLocs == old(freeNodeLocs) && freeRootNodeLocs == old(freeRootNodeLocs)
 //@   ensures [C15] in-visit-eviction-releases-what-it-drops: orphans == old(orphans)
 
 //@ func newIterator
